@@ -18,16 +18,10 @@ T_RTS, T_CTS, T_BAM = 50, 100, 50
 READ_PER_POLL = 20             # frames one ParseMessages call takes from the driver (harness knowledge, not a property)
 SLOT_IDLE = 100                # a reassembly buffer idle for this long may be taken over when all are busy
 
-# confirmed defects that are reported to the lead and not yet decided (patch proposals /tmp/fix_C10_*.diff): suppressed by key only
-PENDING_KNOWN = [
-    {'key': 'stale-session',
-     'line': 'C10 stale-session: a receive session that its originator abandoned (lost CTS, lost last packet, originator aborted) stays open for ever; the data packets of '
-             'a later transfer from the same source with another PGN are added to it: the later transfer fails, or its payload is delivered under the old PGN '
-             '(TP.DT lookup by source/destination only, no receive timeout, TP.CM Abort ignored in the receiver role)'},
-    {'key': 'foreign-cts',
-     'line': 'C10 foreign-cts: TP.CM CTS / EndOfMsgAck / Abort addressed to a sending device are accepted from ANY source: a third station (e.g. the late answer of the '
-             'previous destination) makes the library send data packets the destination did not clear, or ends the session'},
-]
+# confirmed defects reported to the lead and not yet decided would be listed here (key -> line); suppressed by key only.
+# The two findings of the first round (stale-session, foreign-cts) are repaired in /repo (7b28730, b807027, 797643b): their witnesses are
+# regression cases in replays/corpus/C10 and their keys are ordinary violations again.
+PENDING_KNOWN = {}
 
 
 def dec_id(idv):
@@ -256,8 +250,6 @@ class Ref:
                 st = ('bam', s.own.index(src)) if dst == 255 and src in s.own else ('peer', dst)
                 obs.setdefault(st, []).append(item)
             elif e[0] == 'dlv':
-                if e[2] in (TP_CM, TP_DT):
-                    raise Fail('corrupt-delivery:a transport protocol frame was delivered as a message')
                 if e[2] not in s.tp_pgns or (e[2], e[3], bytes(e[6])) in s.fp_done:
                     continue
                 obs.setdefault(('peer', e[3]), []).append(e)
@@ -540,7 +532,7 @@ def oracle(case, res):
 
 
 def known(case, what):
-    for k in vlib.known_findings('C10') + PENDING_KNOWN:
+    for k in vlib.known_findings('C10') + [{'key': kk, 'line': ll} for kk, ll in PENDING_KNOWN.items()]:
         if what.startswith(k['key'] + ':'):
             return k['line']
     return None
